@@ -239,10 +239,12 @@ class LoopSpec:
     havoc(ctx, name, old): optional custom havoc; default keeps the shape of `old` with fresh contents.
     """
 
-    def __init__(self, modifies, invariant, temporaries=(), name="loop", havoc=None):
+    def __init__(self, modifies, invariant, temporaries=(), name="loop", havoc=None, optional=()):
         self.modifies = list(modifies)
+        self.optional = set(optional)  # roles the loop need not have (the invariant uses view.get for them)
         self.invariant = invariant
         self.temporaries = set(temporaries)
+        self.declared_temporaries = set(temporaries)
         self.name = name
         self.havoc = havoc
 
@@ -259,14 +261,41 @@ class LoopSpec:
             if isinstance(n, ast.Name):
                 stored.discard(n.id)
                 self.temporaries.add(n.id)
-        unknown = stored - set(self.modifies) - self.temporaries
-        if unknown:
-            raise EngineError(f"loop contract {self.name}: body stores names not covered by the contract: {sorted(unknown)}")
+        # The invariant speaks about ROLES (the names the contract was written with); which local plays which role
+        # is resolved per run: names stored by the body that do not exist before the loop are temporaries of the body
+        # (opaque afterwards), the others are the loop-carried state and must all be covered by a role.  A renamed
+        # local is matched to its role by the driver (every assignment is tried; one is accepted only if every
+        # obligation of the contract is then discharged - finding the invariant's instantiation is proof search).
+        rename = dict(getattr(I, "loop_renames", {}).get(self.name, {}))
+        actual = lambda n: rename.get(n, n)
+        modifies = [actual(n) for n in self.modifies]
+
+        def defined(n):
+            e = env
+            while e is not None:
+                if n in e.vars:
+                    return True
+                e = e.parent
+            return False
+
+        carried = sorted(n for n in stored if defined(n))
+        for n in stored:
+            if n not in carried and n not in modifies:
+                self.temporaries.add(n)
+        unknown = set(carried) - set(modifies) - self.declared_temporaries
+        missing = [n for n in modifies if not defined(n) and n not in {actual(o) for o in getattr(self, "optional", ())}]
+        modifies = [n for n in modifies if defined(n)]
+        if unknown or missing:
+            err = EngineError(f"loop contract {self.name}: body stores names not covered by the contract: {sorted(unknown)}"
+                              + (f"; the contract's {missing} do not exist" if missing else ""))
+            err.loop_names = {"loop": self.name, "unmatched_actual": sorted(unknown),
+                              "unmatched_roles": [r for r in self.modifies if actual(r) in missing or not defined(actual(r))]}
+            raise err
         count = items.count()
         cnt_t = ops.as_int_term(count)
-        view0 = View(env)
+        view0 = View(env, rename)
         ctx.check(f"{self.name}/invariant_entry", self.invariant(view0, 0))
-        olds = {n: env.vars.get(n) for n in self.modifies}
+        olds = {n: env.vars.get(n) for n in modifies}
         phase = ctx.fresh("loop_phase", "bool")
         if ctx.branch(phase):
             # inductive step at an arbitrary iteration k
@@ -274,7 +303,7 @@ class LoopSpec:
             ctx.assume(z3.And(k.t >= 0, k.t < cnt_t))
             ctx.add_index(k.t)
             self._havoc(I, env, olds, "step")
-            ctx.assume(as_formula(self.invariant(View(env), k)))
+            ctx.assume(as_formula(self.invariant(View(env, rename), k)))
             I.assign_target(st.target, items.item(k.t), env)
             try:
                 I.exec_block(st.body, env)
@@ -282,11 +311,11 @@ class LoopSpec:
                 pass
             except BreakSig:
                 raise Unsupported("break inside an invariant-carrying loop")
-            ctx.check(f"{self.name}/invariant_preserved", self.invariant(View(env), ops.scalar_binop("+", k, 1)))
+            ctx.check(f"{self.name}/invariant_preserved", self.invariant(View(env, rename), ops.scalar_binop("+", k, 1)))
             raise LoopBodyDone()
         # continuation: arbitrary state satisfying the invariant after all iterations
         self._havoc(I, env, olds, "exit")
-        ctx.assume(as_formula(self.invariant(View(env), count)))
+        ctx.assume(as_formula(self.invariant(View(env, rename), count)))
         for n in self.temporaries:
             if n in env.vars:
                 env.vars[n] = Opaque(f"value of '{n}' after loop {self.name}")
@@ -336,16 +365,25 @@ def havoc_like(ctx, old, base):
 class View:
     """Read-only attribute view of an Env for invariants."""
 
-    def __init__(self, env):
+    def __init__(self, env, rename=None):
         object.__setattr__(self, "_env", env)
+        object.__setattr__(self, "_rename", rename or {})
 
     def __getattr__(self, name):
+        name = self._rename.get(name, name)
         e = self._env
         while e is not None:
             if name in e.vars:
                 return e.vars[name]
             e = e.parent
         raise EngineError(f"invariant refers to unknown local '{name}'")
+
+    def get(self, name, default=None):
+        """A role the code may not have (a counter that a rewrite dropped): the invariant then says nothing about it."""
+        try:
+            return getattr(self, name)
+        except EngineError:
+            return default
 
 
 def as_formula(f):
